@@ -46,6 +46,10 @@ impl Host<ArtifactNamedImport> for TH {
     fn call(&mut self, f: &ArtifactNamedImport, _memory: &mut [u8], stack: &mut RuntimeStack) -> RunResult<Option<NoInterrupt>> {
         self.calls += 1;
         self.tick_energy(10)?;
+        if f.matches("concordium_metering", "account_memory") {
+            // the metering import inserted before memory.grow: identity on the number of pages
+            return Ok(None);
+        }
         let ty = f.ty().clone();
         for _ in 0..ty.parameters.len() { let _ = stack.pop(); }
         match ty.result {
@@ -144,7 +148,12 @@ fn exec_all(art: &Art, rounds: u64) -> (u64, BTreeMap<&'static str, u64>, Vec<St
                 Err(p) => { panics.push(format!("{}({:?}): {}", name, args, p)); "PANIC" }
                 Ok(Err(e)) => { let m = format!("{}", e); if m.contains("energy") { "out-of-energy" } else if m.contains("depth") { "call-depth" } else { "trap" } }
                 Ok(Ok(ExecutionOutcome::Interrupted { .. })) => "interrupt",
-                Ok(Ok(ExecutionOutcome::Success { .. })) => "success",
+                Ok(Ok(ExecutionOutcome::Success { memory, .. })) => {
+                    if memory.len() > 512 * 65536 || memory.len() % 65536 != 0 {
+                        panics.push(format!("{}({:?}): final memory of {} bytes exceeds MAX_NUM_PAGES pages or is not page aligned", name, args, memory.len()));
+                    }
+                    "success"
+                }
             };
             *dist.entry(c).or_insert(0) += 1;
             if params.is_empty() { break; }
@@ -264,7 +273,8 @@ fn struct_case(id: String, mutn: &str, m: &Module) {
         exec = json!({"runs": runs, "dist": dist, "panics": panics});
     }
     let msg = |r: &Result<Result<Art, String>, String>| match r { Ok(Err(e)) => e.chars().take(120).collect::<String>(), _ => String::new() };
-    println!("{}", json!({"id": id, "mut": mutn, "line": line, "v0": verdict(&r0), "v1": verdict(&r1), "v1m": vm,
+    let artmem = match &r1 { Ok(Ok(a)) => match &a.memory { Some(m) => format!("{}:{}", m.init_size, m.max_size), None => "none".into() }, _ => "-".into() };
+    println!("{}", json!({"id": id, "mut": mutn, "line": line, "v0": verdict(&r0), "v1": verdict(&r1), "v1m": vm, "artmem": artmem,
         "msg": msg(&r1), "fn": fns, "exec": exec, "hex": if bytes.len() <= 600 { hex(&bytes) } else { String::new() }}));
 }
 
@@ -275,12 +285,56 @@ fn gen_module(r: &mut Rng, st: &mut gen::Stats) -> Module {
     m
 }
 
+/// A module whose only function grows the memory up to and past MAX_NUM_PAGES (512) pages and then
+/// touches the last page; returns memory.size.
+fn mem_grow_module(min: u32, max: Option<u32>, variant: u64) -> Module {
+    use Op::*;
+    let mut body = vec![];
+    let steps: Vec<i32> = match variant % 4 {
+        0 => vec![510 - (min as i32 - 1), 1, 1],
+        1 => vec![512 - min as i32, 1],
+        2 => vec![511 - min as i32, 2, 1, 600],
+        _ => vec![300, 300, 511 - min as i32, 1, 1, 65535],
+    };
+    for s in steps { body.push(I32Const(s)); body.push(Plain(0x40)); body.push(Plain(0x1a)); }
+    // touch the last 4 bytes of the memory as reported by memory.size
+    body.extend(vec![Plain(0x3f), I32Const(65536), Plain(0x6c), I32Const(4), Plain(0x6b), I32Const(0x5a5a5a5a), Mem(0x36, 0, 2)]);
+    body.extend(vec![Plain(0x3f), I32Const(65536), Plain(0x6c), I32Const(8), Plain(0x6b), Mem(0x29, 0, 3), Plain(0x1a)]);
+    body.push(Plain(0x3f));
+    body.push(End);
+    Module {
+        types: vec![Sig { params: vec![], result: Some(VT::I32) }],
+        funcs: vec![Func { ty: 0, locals: vec![], body, rle: None }],
+        mem: Some((min, max)),
+        ..Default::default()
+    }
+}
+
 fn mode_struct(seed: u64, n: u64) {
     let mut st = gen::Stats::default();
+    // memory.grow up to / past MAX_NUM_PAGES under every kind of declared maximum
+    let maxes: [Option<u32>; 8] = [Some(511), Some(512), Some(513), Some(1000), Some(65536), None, Some(600), Some(32)];
+    for (j, mx) in maxes.iter().enumerate() {
+        for (k, min) in [1u32, 32, 2].iter().enumerate() {
+            if mx.map(|x| x < *min).unwrap_or(false) { continue; }
+            let m = mem_grow_module(*min, *mx, (j + k) as u64 + seed);
+            struct_case(format!("s{}-mem{}-{}", seed, j, k), "memory.grow-to-MAX_NUM_PAGES", &m);
+        }
+    }
     for i in 0..n {
         let mut r = Rng::new(seed.wrapping_mul(7_000_003).wrapping_add(i));
         let base = gen_module(&mut r, &mut st);
         struct_case(format!("s{}-{}", seed, i), "valid", &base);
+        // every typed snippet once, at the start of a function, for the first few modules
+        if i < 3 {
+            for k in 0..mutate::N_SNIPPETS {
+                let mut m = base.clone();
+                let fi = r.below(m.funcs.len() as u64) as usize;
+                let (snip, name) = mutate::snippet_at(&mut r, k);
+                for (q, o) in snip.into_iter().enumerate() { m.funcs[fi].body.insert(q, o); }
+                struct_case(format!("s{}-{}k{}", seed, i, k), name, &m);
+            }
+        }
         // instruction-level mutants
         for j in 0..5 {
             let mut m = base.clone();
